@@ -326,12 +326,12 @@ def run(ctx, F, rule="E-RAW"):
     check_len_zero_tests(ctx, F)
     check_init_and_empty(ctx, F)
     import erawmodel
-    ctx.explain("E-RAW.model: find, find_or_find_insert_slot, insert_in_slot_unchecked and remove_at_slot_unchecked (u32 and usize status encodings) "
+    ctx.explain("E-RAW.model: find, find_or_find_insert_slot, insert_in_slot_unchecked, remove_at_slot_unchecked, retain (every subset of the stored keys as predicate) and is_hash (u32 and usize status encodings) "
                 "are interpreted from every well-formed 4-slot table over four keys (two sharing a home slot, two sharing a status "
                 "word): results and resulting tables equal the specification (first tombstone or FREE slot for insertion, FREE vs "
                 "tombstone on removal by the next slot, exact len / free), and every resulting table is well-formed again.")
     nm = erawmodel.run(ctx, F)
-    ctx.floor("E-RAW.model", "interpreted single-operation situations", nm, 2600)
+    ctx.floor("E-RAW.model", "interpreted single-operation situations", nm, 3500)
 
 
 def check_slot_clone(ctx, F, rule="E-RAW.clone"):
